@@ -20,6 +20,7 @@ import (
 	"bufio"
 	"bytes"
 	"encoding/base64"
+	"encoding/xml"
 	"errors"
 	"fmt"
 	"io"
@@ -140,7 +141,55 @@ func c14XmlPrefs(r Req) yqlib.XmlPreferences {
 	if r.Has("indent") {
 		p.Indent = r.Int("indent", 2)
 	}
+	if r.Has("xml_keep_ns") {
+		p.KeepNamespace = r.Bool("xml_keep_ns")
+	}
+	if r.Has("xml_skip_proc") {
+		p.SkipProcInst = r.Bool("xml_skip_proc")
+	}
+	if r.Has("xml_skip_dir") {
+		p.SkipDirectives = r.Bool("xml_skip_dir")
+	}
 	return p
+}
+
+// c14_xmltok: {text_b64} -> {toks: [...]}: the token stream of encoding/xml's RawToken (Strict off, as yq configures
+// it), produced without yqlib.  S: start (space, local, attrs [[space, local, value]...]), C: character data,
+// E: end, M: comment, P: processing instruction, D: directive; all strings base64.
+func c14XmlTokens(text string) ([]interface{}, error) {
+	d := xml.NewDecoder(strings.NewReader(text))
+	d.Strict = false
+	toks := []interface{}{}
+	for {
+		t, err := d.RawToken()
+		if t == nil {
+			if err != nil && !errors.Is(err, io.EOF) {
+				return toks, err
+			}
+			return toks, nil
+		}
+		switch se := t.(type) {
+		case xml.StartElement:
+			attrs := []interface{}{}
+			for _, a := range se.Attr {
+				attrs = append(attrs, []string{b64(a.Name.Space), b64(a.Name.Local), b64(a.Value)})
+			}
+			toks = append(toks, map[string]interface{}{"t": "S", "sp": b64(se.Name.Space), "lo": b64(se.Name.Local), "a": attrs})
+		case xml.CharData:
+			toks = append(toks, map[string]interface{}{"t": "C", "v": b64(string(se))})
+		case xml.EndElement:
+			toks = append(toks, map[string]interface{}{"t": "E", "sp": b64(se.Name.Space), "lo": b64(se.Name.Local)})
+		case xml.Comment:
+			toks = append(toks, map[string]interface{}{"t": "M", "v": b64(string(se))})
+		case xml.ProcInst:
+			toks = append(toks, map[string]interface{}{"t": "P", "target": b64(se.Target), "v": b64(string(se.Inst))})
+		case xml.Directive:
+			toks = append(toks, map[string]interface{}{"t": "D", "v": b64(string(se))})
+		}
+		if err != nil {
+			return toks, err
+		}
+	}
 }
 
 func c14LuaPrefs(r Req) yqlib.LuaPreferences {
@@ -304,6 +353,10 @@ func init() {
 			}
 		}
 		return resp, nil
+	})
+	register("c14_xmltok", func(r Req) (Resp, error) {
+		toks, err := c14XmlTokens(r.Text("text"))
+		return Resp{"toks": toks}, err
 	})
 	register("c14_op", func(r Req) (Resp, error) {
 		return c14WithGlobals(r, func() (Resp, error) {
